@@ -236,7 +236,6 @@ func tssSign(hash []byte) (string, error) {
 // BridgeScriptErr remembers a refused bridge script step (reported as a class).
 var BridgeScriptErr error
 
-
 // genSpec draws a consistent genesis (copy of props/c01_test.go genSpec).
 func genSpec(c *pbt.C) *sim.Spec {
 	spec := sim.DefaultSpec(c.Int("spec.pillars", 2, 4), c.Int("spec.users", 3, 6))
@@ -764,8 +763,11 @@ func buildHuge(c *pbt.C) (*View, error) {
 			}
 		}
 	}
-	for i := 0; i < 3; i++ {
-		h.Produce(0)
+	// more momentums than the count limit
+	for h.A.Height() < uint64(api.RpcMaxCountSize+8) {
+		if !h.Produce(0) {
+			return nil, fmt.Errorf("producer stopped")
+		}
 	}
 	return NewView("huge", h.A, h.Users, pillarNames(h), true)
 }
